@@ -579,6 +579,10 @@ func grpcExtractTimeoutFromHeaders(headers http.Header, meta *requestMeta) error
 		return nil
 	}
 	timeout, err := grpcDecodeTimeout(timeoutStr)
+	if errors.Is(err, errNoTimeout) {
+		// A valid but effectively unbounded timeout: proceed without one.
+		return nil
+	}
 	if err != nil {
 		return err
 	}
